@@ -162,14 +162,28 @@ def finish(rec, tier, seed, jobs):
             # F-test style guard: with R replicas the sd ratio itself fluctuates by ~1/sqrt(R); 0.8 is asserted with that slack
             slack = 1.0 + 3.0 / np.sqrt(2.0 * (R - 1))
             if s4 > 0.8 * sN * slack:
-                v = Violation(f"the spread of the log-evidence does not shrink with the particle count on a {cell['family']} target "
-                              f"(kernel={cell['kernel']}, clustering={cell['clustering']}): sd {sN:.4f} at N={cell['N']}, {s4:.4f} at N={4 * cell['N']}",
-                              sig={"kind": "evidence-sd-not-shrinking", "kernel": cell["kernel"], "clustering": cell["clustering"], "family": cell["family"]})
-                f = rec.classify(CHECK, v)
-                if f is not None:
-                    rec.known(f, CHECK, v)
+                # stage 2: fresh seeds, 2R replicas at both particle counts
+                sd2 = {}
+                for N in (cell["N"], 4 * cell["N"]):
+                    with ProcessPoolExecutor(max_workers=max(1, jobs), mp_context=mp.get_context("fork")) as ex:
+                        r2 = []
+                        for r in ex.map(_chunk_star, [(cell, ci, seed, 3, k * CHUNK, CHUNK, N) for k in range(2 * R // CHUNK)]):
+                            r2.extend(r)
+                    rec.evaluations += len(r2)
+                    sd2[N] = float(np.std([r["logz"] - tr["logz"] for r in r2 if "logz" in r], ddof=1))
+                slack2 = 1.0 + 3.0 / np.sqrt(2.0 * (2 * R - 1))
+                if sd2[4 * cell["N"]] > 0.8 * sd2[cell["N"]] * slack2:
+                    v = Violation(f"the spread of the log-evidence does not shrink with the particle count on a {cell['family']} target "
+                                  f"(kernel={cell['kernel']}, clustering={cell['clustering']}): sd {sd2[cell['N']]:.4f} at N={cell['N']}, "
+                                  f"{sd2[4 * cell['N']]:.4f} at N={4 * cell['N']} (2R={2 * R} fresh runs each; first pass {sN:.4f} / {s4:.4f})",
+                                  sig={"kind": "evidence-sd-not-shrinking", "kernel": cell["kernel"], "clustering": cell["clustering"], "family": cell["family"]})
+                    f = rec.classify(CHECK, v)
+                    if f is not None:
+                        rec.known(f, CHECK, v)
+                    else:
+                        rec.violation(CHECK, v, {"cell": cell, "N": cell["N"], "seed": seed, "R": R, "alpha": 1e-6, "sd_check": True})
                 else:
-                    rec.violation(CHECK, v, {"cell": cell, "N": cell["N"], "seed": seed, "R": R, "alpha": 1e-6, "sd_check": True})
+                    rec.classes[f"{CHECK}:stage1-flag-not-confirmed"] += 1
     rec.extra["ensemble_table"] = table
     rec.extra["crashed_replicas"] = n_crash
 
